@@ -55,6 +55,17 @@ def _val(r, depth=0) -> Any:
     return {r.choice(KEYS): _val(r, depth + 1) for _ in range(r.randint(0, 3))}
 
 
+def _same(a: Any, b: Any) -> bool:
+    """Exactly the same JSON value: 1 / true / 1.0 and 0.0 / -0.0 are different payloads although Python's == equates them."""
+    try:
+        return json.dumps(a, sort_keys=True, ensure_ascii=True) == json.dumps(b, sort_keys=True, ensure_ascii=True)
+    except Exception:  # noqa: BLE001
+        return a == b
+
+
+_TWINS = [(1, True), (0, False), (1, 1.0), (0, 0.0), (0.0, -0.0), ([1], [True]), ([0.0], [-0.0]), ({"k": 0}, {"k": False}), (2, 2.0), ("1", 1)]
+
+
 def _payload(r, version: str) -> Dict[str, Any]:
     nodes = {r.choice(KEYS + ["n1", "n2"]): {"id": "n", "label": r.choice(["x", "y"])} for _ in range(r.randint(0, 4))}
     edges = {}
@@ -88,6 +99,14 @@ def _mutate(r, base: Dict[str, Any]) -> List[Dict[str, Any]]:
         if r.chance(0.25):
             import math as _m
             edits.append({"path": path, "kind": "set", "value": r.choice([_m.nextafter(val, 2.0), _m.nextafter(val, -2.0), val + 1e-13, val * (1 + 1e-15), 0.1 + 0.2 if val == 0.3 else val - 1e-14])})
+    if r.chance(0.3):
+        # a scalar replaced by a value Python calls equal but JSON does not (int / bool / float, signed zero): the edit sets
+        # the first of a twin pair in the base and the second in the current payload
+        a, b = r.choice(_TWINS)
+        if r.chance(0.5):
+            a, b = b, a
+        path = [r.choice(["gel", r.choice(KEYS)])] + [r.choice(KEYS) for _ in range(r.randint(0, 1))]
+        edits.append({"path": path, "kind": "twin", "base_value": a, "value": b})
     for _ in range(r.randint(0, 6)):
         edits.append({"path": [r.choice(["gel", "store", r.choice(KEYS)])] + [r.choice(KEYS + ["nodes", "edges"]) for _ in range(r.randint(0, 2))],
                       "kind": r.choice(["set", "set", "del"]), "value": _val(r)})
@@ -108,7 +127,7 @@ def _apply_edits(obj: Dict[str, Any], edits: List[Dict[str, Any]]) -> Dict[str, 
             cur = cur[k]
         if not ok:
             continue
-        if e["kind"] == "set":
+        if e["kind"] in ("set", "twin"):
             cur[e["path"][-1]] = copy.deepcopy(e["value"])
         else:
             cur.pop(e["path"][-1], None)
@@ -122,7 +141,7 @@ def generate(seed: int, tier: str) -> Dict[str, Any]:
     edits = _mutate(rng.stream("edits"), base)
     fate = r.weighted([("intact", 4), ("never_written", 1), ("removed", 2), ("truncated", 1), ("garbled", 1), ("killed", 2)])
     return {"base": base, "edits": edits, "cur_version": "8", "fate": fate, "cut": r.randint(0, 200), "kill_at": r.randint(0, 30),
-            "full_sibling": r.chance(0.3)}
+            "full_sibling": r.chance(0.4), "damage_before_write": r.chance(0.5), "sibling_fate": r.choice([None, None, "truncated", "garbled"])}
 
 
 def execute(p: Dict[str, Any]) -> Dict[str, Any]:
@@ -133,7 +152,7 @@ def execute(p: Dict[str, Any]) -> Dict[str, Any]:
         if not any(v["sig"] == sig for v in viol):
             viol.append({"cls": "delta", "sig": sig, "detail": detail})
 
-    base = copy.deepcopy(p["base"])
+    base = _apply_edits(p["base"], [{"path": e["path"], "kind": "set", "value": e["base_value"]} for e in p["edits"] if e["kind"] == "twin"])
     cur = _apply_edits(base, p["edits"])
     cur["version_etag"] = p["cur_version"]
     # ---- codec law ----
@@ -147,8 +166,8 @@ def execute(p: Dict[str, Any]) -> Dict[str, Any]:
     if base != b0 or cur != c0:
         bad("codec:mutates-arguments", "compute/apply changed their inputs")
     nontrivial = bool(delta and (delta.get("_adds") or delta.get("_mods") or delta.get("_dels")))
-    if rebuilt is not None and rebuilt != cur:
-        diff_keys = sorted(k for k in set(rebuilt) | set(cur) if rebuilt.get(k) != cur.get(k))[:4]
+    if rebuilt is not None and not _same(rebuilt, cur):
+        diff_keys = sorted(k for k in set(rebuilt) | set(cur) if not _same(rebuilt.get(k), cur.get(k)))[:4]
         # classify by the kind of key that breaks it
         def kinds(obj, acc):
             if isinstance(obj, dict):
@@ -177,18 +196,49 @@ def execute(p: Dict[str, Any]) -> Dict[str, Any]:
                         base_path, _ = esnap.write_snapshot_auto(d, etag_from=None, etag_to="7", payload=base, delta_mode=False)
                     except SimCrash:
                         stats["kills_fired"] = 1
+            sibling_damaged = False
+            damaged_before = False
+            bp0 = os.path.join(d, "snapshot-7.full.json")
+            if p.get("damage_before_write") and fate in ("truncated", "garbled") and os.path.exists(bp0):
+                # the baseline is already corrupt when the NEXT snapshot is written: the writer must not diff against it
+                data0 = open(bp0, "rb").read()
+                if fate == "truncated":
+                    cuts = [0, 5, len(data0.split(b"\n")[0]), len(data0.split(b"\n")[0]) + 1, int(p["cut"]) % max(1, len(data0))]
+                    open(bp0, "wb").write(data0[: cuts[int(p["cut"]) % len(cuts)]])
+                else:
+                    open(bp0, "wb").write(b"\x00\xff{not json" + bytes(range(20)))
+                damaged_before = True
+                stats["baseline_damaged_before_write"] = 1
             try:
                 cur_path, wrote_delta = esnap.write_snapshot_auto(d, etag_from="7", etag_to="8", payload=cur, delta_mode=True)
             except Exception as e:  # noqa: BLE001
-                bad("writer:raised:%s" % type(e).__name__, repr(e)[:200])
+                bad("writer:raised:%s%s" % (type(e).__name__, ":damaged-baseline" if damaged_before else ""), repr(e)[:200])
                 cur_path, wrote_delta = None, False
+            if damaged_before and cur_path is not None:
+                if wrote_delta:
+                    bad("writer:delta-against-damaged-baseline", "a delta was written although the baseline file is corrupt (%s)" % fate)
+                else:
+                    try:
+                        got0 = read_snapshot(root=d, etag_to="8")
+                        if not _same(got0, cur):
+                            bad("writer:fallback-full-not-readable", "the full snapshot written instead of a delta reads back differently")
+                    except Exception as e:  # noqa: BLE001
+                        bad("writer:fallback-full-not-readable", repr(e)[:200])
             baseline_ok_at_write = os.path.exists(os.path.join(d, "snapshot-7.full.json"))
             if cur_path is not None:
                 stats["wrote_delta" if wrote_delta else "wrote_full"] = 1
                 if wrote_delta and not baseline_ok_at_write:
                     bad("writer:delta-without-baseline", "a delta was written although no baseline file exists")
                 if p.get("full_sibling") and wrote_delta:
-                    esnap.write_snapshot_auto(d, etag_from=None, etag_to="8", payload=cur, delta_mode=False)
+                    sp, _ = esnap.write_snapshot_auto(d, etag_from=None, etag_to="8", payload=cur, delta_mode=False)
+                    if p.get("sibling_fate") and fate in ("removed", "truncated", "garbled"):
+                        # the fall-back file is damaged too: the readers then have nothing trustworthy and must say so
+                        sdata = open(sp, "rb").read()
+                        head = len(sdata.split(b"\n")[0])
+                        cuts = [0, 5, head, head + 1, int(p["cut"]) % max(1, len(sdata))]
+                        open(sp, "wb").write(sdata[: cuts[int(p["cut"]) % len(cuts)]] if p["sibling_fate"] == "truncated" else b"\xfe\xff[garbage")
+                        stats["sibling_damaged"] = 1
+                        sibling_damaged = True
                 # baseline fate after the delta was written
                 bp = os.path.join(d, "snapshot-7.full.json")
                 if wrote_delta and fate in ("removed", "truncated", "garbled") and os.path.exists(bp):
@@ -217,8 +267,8 @@ def execute(p: Dict[str, Any]) -> Dict[str, Any]:
                             bad("reader:%s:raised-with-intact-baseline:%s" % (name, type(e).__name__), repr(e)[:200])
                         continue
                     if intact:
-                        if got != cur:
-                            dk = sorted(k for k in set(got) | set(cur) if got.get(k) != cur.get(k))[:4]
+                        if not _same(got, cur):
+                            dk = sorted(k for k in set(got) | set(cur) if not _same(got.get(k), cur.get(k)))[:4]
                             bad("reader:%s:wrong-payload-with-intact-baseline" % name, "differs at %s (delta written: %s)" % (dk, wrote_delta))
                     elif got not in (cur, {}):
                         bad("reader:%s:wrong-payload-with-damaged-baseline:%s" % (name, fate),
